@@ -334,7 +334,7 @@ PROPS["C12"]["lanes"] += [
 ]
 PROPS["C12"]["level_text"] += " Lanes: native (with the counting allocator), AddressSanitizer, and Miri in thorough (undefined behaviour on malformed input in the serde / bincode / erased-serde stack)."
 PROPS["C15"]["lanes"] += [
-    lane("httplab-miri", "caplab", "httplab", "miri", "C15", {"budget": 40}, {"budget": 60 * 16}, 4, 16, tiers=("thorough",)),
+    lane("httplab-miri", "caplab", "httplab", "miri", "C15", {"budget": 40}, {"budget": 12 * 16}, 4, 16, tiers=("thorough",)),
 ]
 PROPS["C15"]["level_text"] += " Thorough adds a Miri lane over the same generator (the zero-copy `from_utf8_unchecked` path in response/decode.rs)."
 for _p, _n in (("C04", 30), ("C01", 20), ("C07", 30)):
